@@ -423,7 +423,11 @@ def gen_case(seed: int, s: int) -> dict:
         if sib is not None and sib != r:
             siblings.append(sib)
     via = "pickle" if rng.random() < 0.04 else None
-    return {"prop": "C11", "seed": seed, "scenario": s, "recipe": r, "ordering": ordering, "siblings": siblings, "via": via,
+    orng = random.Random(f"{seed}:C11o:{s}")  # separate stream: the rest of the case is as before
+    extra = [n for n in world.gen_names(orng, orng.randint(1, 2)) if n not in allnames] if orng.random() < 0.3 else []
+    as_tuple = orng.random() < 0.3
+    return {"prop": "C11", "seed": seed, "scenario": s, "recipe": r, "ordering": ordering, "siblings": siblings, "via": via, "ordering_extra": extra,
+            "ordering_tuple": as_tuple,
             "ordering_as_variables": om == "perm-var", "presentations": pres, "other": other, "flags": flags}
 
 
@@ -434,9 +438,13 @@ def _ordering(case: dict) -> Any:
     o = case.get("ordering")
     if o is None:
         return None
+    o = list(o)
+    for i, nm in enumerate(case.get("ordering_extra") or []):
+        # an ordering may cover more than the variables of the expression (the ordering of a whole graph)
+        o.insert((7 * i + len(nm)) % (len(o) + 1), nm)
     if case.get("ordering_as_variables"):
-        return [Variable(n) for n in o]
-    return list(o)
+        o = [Variable(n) for n in o]
+    return tuple(o) if case.get("ordering_tuple") else o
 
 
 def diff_class(a: Any, b: Any) -> str:
